@@ -231,6 +231,7 @@ pub fn programs(tier: Tier) -> ProgramSet {
             devs.extend(crate::devs::rich_generic_devs(false));
             devs.extend(crate::devs::syntax_devs(false, false, true, false).into_iter().filter(|d| d.label.contains("doc(hidden)")));
             devs.extend(crate::devs::context_devs());
+            devs.extend(crate::devs::rebound_prelude_devs());
             devs.extend(crate::devs::rare_shape_devs(n, true));
             let dis: Vec<String> = (0..n).filter(|i| mask & (1 << i) != 0).map(|i| i.to_string()).collect();
             let label = format!("B{} disabled={{{}}}", n, dis.join(","));
